@@ -41,6 +41,17 @@ type (
 	}
 )
 
+var errNoAvailableSession = fmt.Errorf("no available session to the seata server")
+
+// selectSession picks a session for msg; nil when the client has none (or was
+// never initialized).
+func selectSession(msg message.RpcMessage) getty.Session {
+	if sessionManager == nil {
+		return nil
+	}
+	return sessionManager.selectSession(msg)
+}
+
 func newGettyRemoting() *GettyRemoting {
 	return &GettyRemoting{
 		futures:     &sync.Map{},
@@ -50,7 +61,9 @@ func newGettyRemoting() *GettyRemoting {
 
 func (g *GettyRemoting) SendSync(msg message.RpcMessage, s getty.Session, callback callbackMethod) (interface{}, error) {
 	if s == nil {
-		s = sessionManager.selectSession(msg)
+		if s = selectSession(msg); s == nil {
+			return nil, errNoAvailableSession
+		}
 	}
 	rpc.BeginCount(s.RemoteAddr())
 	result, err := g.sendAsync(s, msg, callback)
@@ -64,7 +77,9 @@ func (g *GettyRemoting) SendSync(msg message.RpcMessage, s getty.Session, callba
 
 func (g *GettyRemoting) SendAsync(msg message.RpcMessage, s getty.Session, callback callbackMethod) error {
 	if s == nil {
-		s = sessionManager.selectSession(msg)
+		if s = selectSession(msg); s == nil {
+			return errNoAvailableSession
+		}
 	}
 	rpc.BeginCount(s.RemoteAddr())
 	_, err := g.sendAsync(s, msg, callback)
